@@ -279,6 +279,18 @@ fn simplify_expr(e: &BodyExpr) -> Vec<BodyExpr> {
         BodyExpr::NewVar { .. } | BodyExpr::Memo { .. } | BodyExpr::LocalMemo { .. } => {
             out.push(BodyExpr::Const(0));
         }
+        BodyExpr::Ref(inner, p) => {
+            out.push((**inner).clone());
+            for s in simplify_expr(inner) {
+                out.push(BodyExpr::Ref(Box::new(s), *p));
+            }
+        }
+        BodyExpr::WithOld(inner, f) => {
+            out.push((**inner).clone());
+            for s in simplify_expr(inner) {
+                out.push(BodyExpr::WithOld(Box::new(s), *f));
+            }
+        }
         BodyExpr::MapVia(inner, f, v) => {
             out.push(BodyExpr::Map(inner.clone(), *f));
             for s in simplify_expr(inner) {
